@@ -124,6 +124,8 @@ def txn_log(draw, st, n_events):
         elif r <= 6:
             if open_.get(pid):
                 specs.append({"kind": "commit", "pid": pid})
+                if draw(st.integers(0, 7)) == 0:
+                    specs[-1]["attrs_extra"] = 0x40         # delete-horizon flag set by the log cleaner (KIP-534)
                 if draw(st.integers(0, 5)) == 0:
                     specs[-1]["key_extra"] = b"\x00\x07"       # a marker key with more than (version, type)
                 open_[pid] = False
@@ -228,6 +230,11 @@ def _mk_log(events):
             specs.append({"kind": "commit" if e[0] == "c" else "abort", "pid": e[1]})
             if len(e) > 2:
                 specs[-1]["key_extra"] = e[2]
+    # the log cleaner of newer brokers (KIP-534) sets the delete-horizon attribute bit (0x40) on batches it has cleaned:
+    # every third batch of these logs carries it
+    for i, sp in enumerate(specs):
+        if i % 3 == 1:
+            sp["attrs_extra"] = 0x40
     return specs
 
 
